@@ -6,6 +6,7 @@ mod hostile;
 mod mp;
 mod mpart;
 mod proxy;
+mod rt;
 mod sendloop;
 mod settings;
 mod transport;
@@ -135,6 +136,7 @@ fn run_all(kind: &str, input: &str, outdir: &str, threads: usize, budget: Durati
                             "proxy" => proxy::run(&sc),
                             "mpart" => mpart::run(&sc),
                             "settings" => settings::run(&sc),
+                            "rt" => rt::run(&sc),
                             "charset" => {
                                 if util::gs(&sc, "kind") == "charset" {
                                     let thorough = std::env::var("VERIF_TIER").map(|t| t == "thorough").unwrap_or(false);
@@ -215,6 +217,8 @@ fn main() {
             let seed: u64 = arg(&args, "--seed").and_then(|s| s.parse().ok()).unwrap_or(1);
             let tier = arg(&args, "--tier").unwrap_or("quick".into());
             let scs: Vec<String> = match family.as_str() {
+                "rt" => rt::generate(seed, &tier, false).into_iter().map(|v| v.to_string()).collect(),
+                "rt_release" => rt::generate(seed, &tier, true).into_iter().map(|v| v.to_string()).collect(),
                 "mpart" => mpart::generate(seed, &tier).into_iter().map(|v| v.to_string()).collect(),
                 "c07_req" => sendloop::generate(seed, &tier).into_iter().map(|v| v.to_string()).collect(),
                 "charset_split" => charset::generate(seed, &tier).into_iter().map(|v| v.to_string()).collect(),
